@@ -18,6 +18,8 @@
  *                                      notifications in DFS order: /mod:name/mod:name...=<nodetype>[flags] separated by ;
  *                                      flags: c config true, s config false, m mandatory, p presence container
  *   featv c<k> <mod> <feature>         lys_feature_value() as a number
+ *   spath c<k> <hex path>              lys_find_path(): 1 found, 0 not found
+ *   mods c<k>                          name:implemented:enabled features,... of every module except the internal ones
  *   data c<k> <x|j> <hex>              lyd_parse_data(strict, validate present) -> rc[/vecode/apptag~class] <hex of the JSON
  *                                      print with all defaults (empty on error)>
  * feats: "-" none, "*" all, or a comma separated list.
@@ -363,6 +365,39 @@ run_cmd(char *cmd, struct sbuf *o)
         const struct lys_module *m = C[c] ? ly_ctx_get_module_latest(C[c], w[2]) : NULL;
 
         sb_fmt(o, "%d", m ? (int)lys_feature_value(m, w[3]) : -1);
+    } else if (!strcmp(w[0], "spath")) {
+        NEED(3);
+        int c = slot_c(w[1]);
+        char *pth = vunhex(w[2], NULL);
+        uint32_t lo = ly_log_options(0);
+
+        sb_fmt(o, "%d", (C[c] && lys_find_path(C[c], NULL, pth, 0)) ? 1 : 0);
+        ly_log_options(lo);
+        if (C[c]) {
+            ly_err_clean(C[c], NULL);
+        }
+        free(pth);
+    } else if (!strcmp(w[0], "mods")) {
+        NEED(2);
+        int c = slot_c(w[1]);
+        uint32_t idx = 0;
+        const struct lys_module *m;
+
+        while (C[c] && (m = ly_ctx_get_module_iter(C[c], &idx))) {
+            const struct lysp_feature *f = NULL;
+            uint32_t fi = 0;
+
+            if (!strncmp(m->name, "ietf-", 5) || !strcmp(m->name, "yang") || !strcmp(m->name, "default")) {
+                continue;
+            }
+            sb_fmt(o, "%s:%d:", m->name, (int)m->implemented);
+            while ((f = lysp_feature_next(f, m->parsed, &fi))) {
+                if (f->flags & LYS_FENABLED) {
+                    sb_fmt(o, "%s,", f->name);
+                }
+            }
+            sb_str(o, ";");
+        }
     } else if (!strcmp(w[0], "data")) {
         NEED(4);
         int c = slot_c(w[1]);
